@@ -26,7 +26,8 @@ cRetainP == cRetain \cup { <<1,1,1,1,1,1,1,1,1,1,1,1,1,1,1,1,1,1,1,1,1,1>>, <<0>
 cItems == { << <<98>>, E2 >> }
 \* (the last one: an item that is itself longer than the inline limit - for strs / Display pieces only)
 \* (and one made mostly of EMPTY pieces: more pieces than bytes - a piece count is not a byte count)
-cItems2 == { << <<>>, <<>>, <<>>, <<98>>, <<>>, <<>> >>, << <<98>>, E2 >>, << G4, G4, G4, G4, <<120>> >>, <<>>, << A17, <<98>> >> }
+\* (and six chars of every width, 12 bytes: with a hint of 5 the lower bound is honest and 4 x it is above the inline limit)
+cItems2 == { << <<97>>, E2, U3, <<98>>, <<99>>, G4 >>, << <<>>, <<>>, <<>>, <<98>>, <<>>, <<>> >>, << <<98>>, E2 >>, << G4, G4, G4, G4, <<120>> >>, <<>>, << A17, <<98>> >> }
 cOpsCore == {"new","from_str","from_static","with_capacity","clone","drop","reserve","shrink_to",
              "push_str","pop","clear","truncate","remove","insert_str"}
 cOpsAll == cOpsCore \cup {"from_char","clone_from","retain","extend","collect","display","clone_ovf"}
@@ -82,7 +83,11 @@ SeedPairStatH  == << o("from_static", 1, 1, 0, <<>>), o("from_str", 2, 0, 0, St2
 SeedTripleSh   == << o("from_str", 1, 0, 0, M22), o("clone", 2, 1, 0, <<>>), o("from_str", 3, 0, 0, M22) >>                   \* shared vs unique
 SeedTripleTr   == << o("from_str", 1, 0, 0, M22), o("clone", 2, 1, 0, <<>>), o("truncate", 2, 0, 6, <<>>), o("from_str", 3, 0, 0, SubSeq(M22, 1, 6)) >>
 SeedPair16     == << o("from_str", 1, 0, 0, M16), o("with_capacity", 2, 0, 17, <<>>), o("push_str", 2, 0, 0, M16) >>           \* 16 bytes inline vs heap
-cSeedsPairs == { SeedPairOver, SeedPairShort, SeedPairStatic, SeedPairPop, SeedPairStatH, SeedTripleSh, SeedTripleTr, SeedPair16 }
+\* different texts that agree in their first 8 / 15 bytes (what a word-at-a-time or pointer-looking comparison would look at)
+A8 == <<97,98,99,100,101,102,103,104>>
+SeedPairPrefix   == << o("from_str", 1, 0, 0, A8 \o <<49>>), o("from_str", 2, 0, 0, A8 \o <<50>>), o("from_str", 3, 0, 0, A8 \o <<97, 97>>) >>
+SeedPairPrefix16 == << o("from_str", 1, 0, 0, A15 \o <<120>>), o("from_str", 2, 0, 0, A15 \o <<121>>), o("from_str", 3, 0, 0, A15 \o <<120, 120>>) >>
+cSeedsPairs == { SeedPairPrefix, SeedPairPrefix16, SeedPairOver, SeedPairShort, SeedPairStatic, SeedPairPop, SeedPairStatH, SeedTripleSh, SeedTripleTr, SeedPair16 }
 cOpsPairs == {"compare", "push_str", "pop", "clone", "truncate", "drop", "clear"}
 SeedTriple == << o("from_str", 1, 0, 0, M22), o("clone", 2, 1, 0, <<>>), o("clone", 3, 1, 0, <<>>), o("truncate", 3, 0, 6, <<>>) >>   \* three holders, one shorter
 cSeeds3 == cSeedsAll \cup cSeedsPairs \cup { SeedTriple }
